@@ -8,6 +8,8 @@ import Mathy.Model.Parser
 import Mathy.Model.Print
 import Mathy.Model.ParserObj
 import Mathy.Model.Tree
+import Mathy.Model.Layout
+import Mathy.Model.PyEval
 namespace Mathy
 
 def Bop.name : Bop → String
@@ -179,5 +181,56 @@ def cellsToWire (h : Heap) (ids : List Nat) : String :=
 
 def traceToWire (tr : List (Nat × Nat)) : String :=
   " ".intercalate (tr.map fun p => s!"{p.1}:{p.2}")
+
+def ratsToWire (l : List Rat) : String := " ".intercalate (l.map fun q => s!"{q.num}/{q.den}")
+
+def ratOfWire (s : String) : Option Rat :=
+  match s.splitOn "/" with
+  | [n, d] => mkRatWire n d
+  | _ => none
+
+/-! typed trees for `pyEval`: `I <z>` | `F <num> <den>` | `V <c>` | `U <op> <c>` | `B <op> <l> <r>` -/
+
+def PEx.ofWire : Nat → List String → Option (PEx × List String)
+  | 0, _ => none
+  | fuel + 1, toks =>
+    match toks with
+    | "I" :: z :: rest => z.toInt?.map fun z => (.cint z, rest)
+    | "F" :: n :: d :: rest => (mkRatWire n d).map fun q => (.cflt q, rest)
+    | "V" :: x :: rest => match x.toList with | [c] => some (.var c, rest) | _ => none
+    | "U" :: o :: rest =>
+      match Uop.ofName? o, PEx.ofWire fuel rest with
+      | some o, some (c, rest) => some (.un o c, rest)
+      | _, _ => none
+    | "B" :: o :: rest =>
+      match Bop.ofName? o, PEx.ofWire fuel rest with
+      | some o, some (l, rest) =>
+        match PEx.ofWire fuel rest with
+        | some (r, rest) => some (.bin o l r, rest)
+        | none => none
+      | _, _ => none
+    | _ => none
+
+def PyVal.toWire : PyVal → String
+  | .int z => s!"int {z}"
+  | .flt q => s!"flt {q.num} {q.den}"
+  | .nan => "nan"
+
+def PyExc.name : PyExc → String
+  | .unboundVariable => "unboundVariable" | .equationDidNotHold => "equationDidNotHold"
+  | .factorialDomain => "factorialDomain" | .unmodelled => "unmodelled"
+
+/-- `x=i:<z>` or `x=f:<n>/<d>` -/
+def pyEnvOfWire (toks : List String) : PyEnv := fun c =>
+  toks.findSome? fun tok =>
+    match tok.splitOn "=" with
+    | [x, v] =>
+      if x.toList = [c] then
+        match v.splitOn ":" with
+        | ["i", z] => z.toInt?.map PyVal.int
+        | ["f", q] => (ratOfWire q).map PyVal.flt
+        | _ => none
+      else none
+    | _ => none
 
 end Mathy
